@@ -8,6 +8,7 @@ import GdcVerif.Lemmas.GolombExact
 import GdcVerif.Lemmas.JpegFrames
 import GdcVerif.Lemmas.JpegLsScanStep
 import GdcVerif.Lemmas.JpegLsLockstep3
+import GdcVerif.Lemmas.GolombReader3
 import GdcVerif.Lemmas.JpegLsRunInt
 import GdcVerif.Lemmas.JpegLsCtx
 import GdcVerif.Lemmas.JpegLsRunCtx
@@ -326,6 +327,48 @@ example : JpegLsScanL.LineOk 1 ((2 : Int) ^ 12 - 1) 4 [[4095], [0], [4095], [0]]
   intro p hp
   simp only [List.mem_cons, List.mem_singleton, List.not_mem_nil, or_false] at hp
   rcases hp with rfl | rfl | rfl | rfl <;> exact ⟨rfl, by intro v hv; simp at hv; subst hv; unfold JpegLsScanL.SampOk; decide⟩
+
+/-! ### bit reader (code-shaped model `Model/GolombReader.lean` of `GolombReader`: 64-bit cache,
+    `fillReadCache` with its optimistic path and `positionFF`, the bit stuffed after 0xFF; tied by `jls-gr`) -/
+
+/-- (11g) READER EXACTNESS.  `GolombReader.Rep r S` says that the reader state `r` represents the
+    remaining bit stream `S` (the cache is a window onto `S`, the unread bytes un-stuff to the rest).
+    On well-stuffed scan data `d` (bytes, every 0xFF followed by a byte < 0x80, not ending on 0xFF):
+    a fresh reader represents `Golomb.destuff d`; `ReadBit` returns the next bit and fails exactly when
+    the stream is exhausted; `ReadBits(n)`, 1 ≤ n ≤ 32, returns the next n bits as a number and fails
+    exactly when fewer than n are left — each re-establishing `Rep` for the rest.  So the two
+    operations the decoders call deliver exactly the bit sequence `destuff d`, whatever path
+    `fillReadCache` takes (optimistic whole-byte reads, slow path, end of data). -/
+theorem golomb_reader_exact (d : List Nat) (hd : GolombReader.WellStuffed d) :
+    GolombReader.Rep (GolombReader.new d) (Golomb.destuff d false) ∧
+    (∀ (r : GolombReader.Reader) (S : List Bool), GolombReader.Rep r S →
+      (S = [] ∧ GolombReader.readBit r = .error .err) ∨
+      ∃ b S' r', S = b :: S' ∧ GolombReader.readBit r = .ok ((if b then 1 else 0), r') ∧
+        GolombReader.Rep r' S' ∧ r'.data = r.data) ∧
+    (∀ (r : GolombReader.Reader) (S : List Bool) (n : Nat), GolombReader.Rep r S → 1 ≤ n → n ≤ 32 →
+      if S.length < n then GolombReader.readBits r (n : Int) = .error .err
+      else ∃ r', GolombReader.readBits r (n : Int) = .ok (Golomb.natOfBits (S.take n), r') ∧
+        GolombReader.Rep r' (S.drop n) ∧ r'.data = r.data) :=
+  ⟨GolombReader.rep_new d hd, fun r S h => GolombReader.readBit_aux r S h,
+   fun r S n h h1 h32 => GolombReader.readBits_spec r S h n h1 h32⟩
+
+/-- (11h) writer and reader together: for every well-formed write sequence, a fresh reader on the
+    bytes the writer emits represents exactly the written bits followed by zero padding -/
+theorem golomb_reader_on_writer (ws : List (Nat × Int)) (hf : Golomb.WritesFit ws) :
+    ∃ k, GolombReader.Rep (GolombReader.new (Golomb.finish (Golomb.writeAll Golomb.Writer.new ws)).out)
+      (Golomb.writesBits ws ++ List.replicate k false) := by
+  have hok : WritesOk ws := fun p hp => by
+    obtain ⟨h0, h32, hv⟩ := hf p hp
+    refine ⟨?_, h0, h32⟩
+    have : (2 : Nat) ^ p.2.toNat ≤ 2 ^ 32 := Nat.pow_le_pow_right (by decide) (by omega)
+    have e : Golomb.M32 = 2 ^ 32 := by decide
+    omega
+  have hI := Golomb.inv_finish _ (Golomb.inv_writeAll ws _ Golomb.inv_new (fun p hp => (hok p hp).1))
+  have hws := GolombReader.wellStuffed_of _ hI.2.2.2 hI.2.1 (golomb_scan_end ws hok).1
+  obtain ⟨k, hk⟩ := Golomb.writer_destuff ws hf
+  exact ⟨k, by rw [← hk]; exact GolombReader.rep_new _ hws⟩
+
+example : (GolombReader.readBits (GolombReader.new [255, 127, 192]) 17).toOption.map (·.1) = some 131071 := by decide
 
 /-- (12) what an unreduced error of the finding does to the escape code: mapped value 8190 at
     qbpp = 12 is written as (8190−1) mod 4096 and read back as 4094 — model-level replay of the
